@@ -63,7 +63,67 @@ func (P *Prog) inputTainted(g *modCG, fn *ssa.Function, v ssa.Value) (bool, stri
 // kindGuards: reflect Kinds the receiver rv is known to have at block b,
 // from dominating `rv.Kind() == K` / `!= K` tests (also through a switch).
 func (P *Prog) kindFacts(b *ssa.BasicBlock, rv ssa.Value) (is map[int64]bool, not map[int64]bool) {
+	return P.kindFactsDepth(b, rv, 0)
+}
+
+func (P *Prog) kindFactsDepth(b *ssa.BasicBlock, rv ssa.Value, depth int) (is map[int64]bool, not map[int64]bool) {
 	is, not = map[int64]bool{}, map[int64]bool{}
+	// a parameter of an unexported helper: the facts that hold at every one of its call sites
+	if p, isP := cv(rv).(*ssa.Parameter); isP && depth < 3 {
+		fn := p.Parent()
+		idx := -1
+		for i, q := range fn.Params {
+			if q == p {
+				idx = i
+			}
+		}
+		if idx >= 0 && fn.Parent() == nil && !isExportedAPI(fn) {
+			n := 0
+			escapes := false
+			var accIs, accNot map[int64]bool
+			for _, caller := range P.Funcs {
+				eachInstr(caller, func(cb *ssa.BasicBlock, _ int, in ssa.Instruction) {
+					ci := callOf(in)
+					if ci == nil || ci.static != fn {
+						var ops []*ssa.Value
+						for _, op := range in.Operands(ops) {
+							if f, ok := (*op).(*ssa.Function); ok && f == fn {
+								escapes = true
+							}
+						}
+						return
+					}
+					if idx >= len(ci.args()) {
+						return
+					}
+					n++
+					si, sn := P.kindFactsDepth(cb, ci.args()[idx], depth+1)
+					if accIs == nil {
+						accIs, accNot = si, sn
+						return
+					}
+					for k := range accIs {
+						if !si[k] {
+							delete(accIs, k)
+						}
+					}
+					for k := range accNot {
+						if !sn[k] {
+							delete(accNot, k)
+						}
+					}
+				})
+			}
+			if n > 0 && !escapes {
+				for k := range accIs {
+					is[k] = true
+				}
+				for k := range accNot {
+					not[k] = true
+				}
+			}
+		}
+	}
 	for _, gd := range guardsOf(b) {
 		bo, ok := gd.If.Cond.(*ssa.BinOp)
 		if !ok || (bo.Op != token.EQL && bo.Op != token.NEQ) {
@@ -404,7 +464,7 @@ func checkC06(P *Prog, r *Result) {
 		total += v
 	}
 	r.Extra["sites_total"] = total
-	r.floor("C06/panic-site", 120)
+	r.floor("C06/panic-site", 60)
 	if !coercersNonNil {
 		r.bad("C06/precondition", "coercers-run-on-present-data", "-", whyC)
 	} else {
